@@ -111,6 +111,7 @@ def pins_obligations(ctx, eq, topo, sizes=None, segments=None):
         for nm, opt in want.items():
             if nm in segments:
                 ctx.oblige(segments[nm]["nx"] == sizes[opt], "T12:segment %s has %s radial cells" % (nm, opt))
+    split_obligations(ctx, eq, topo, sizes, segments)
     # T10: a wall surface is attached exactly at wall ends, X-point pins exactly at X-point ends
     for nm, reg in eq.regions.items():
         lo, up = reg.kind.split(".")
@@ -126,6 +127,37 @@ def pins_obligations(ctx, eq, topo, sizes=None, segments=None):
                 continue
             other = eq.regions[up[0]]
             ctx.oblige(TRUE(same(reg.psi_vals[k], other.psi_vals[up[1]])), "T8:%s[%d] and its upper neighbour %s[%d] use the same radial segment (psi values)" % (nm, k, up[0], up[1]))
+
+
+def split_obligations(ctx, eq, topo, sizes, segments):
+    """T13 (disconnected double null): the private-flux segment of the SECONDARY X-point is split
+    in two so that every region has three radial segments: <pf>2 is the last nx_inter_sep cells
+    (2 nx_inter_sep + 1 values) of THAT segment's own radial grid, <pf> keeps the rest, the two
+    share exactly one value (the boundary), and their cell counts are nx_inter_sep and
+    nx_pf - nx_inter_sep."""
+    if topo not in ("ldn", "udn", "ldn_upper_outer_start", "udn_upper_outer_start") or sizes is None or segments is None:
+        return
+    sec = "upper_pf" if eq.x_points[0].Z < 0 else "lower_pf"
+    nis = sizes["nx_inter_sep"]
+    a, b = segments.get(sec), segments.get(sec + "2")
+    ctx.oblige(TRUE(a is not None and b is not None and (sec.replace("upper", "lower") if sec.startswith("upper") else sec.replace("lower", "upper")) + "2" not in segments), "T13:the secondary private-flux segment %s (and only it) is split" % sec)
+    if a is None or b is None:
+        return
+    pa, pb = a["psi_vals"], b["psi_vals"]
+    ctx.oblige(TRUE(getattr(pa, "tag", None) == sec and getattr(pb, "tag", None) == sec), "T13:%s and %s2 are both cut from the radial grid of %s itself" % (sec, sec, sec))
+    na, nb = getattr(pa, "n", None), getattr(pb, "n", None)
+    ok_shape = isinstance(na, tuple) and isinstance(nb, tuple) and na[0] == nb[0] == "slice"
+    ctx.oblige(TRUE(ok_shape), "T13:both are slices of the full grid")
+    if ok_shape:
+        ctx.oblige(TRUE(nb[3] is None and na[2] in (None, 0)), "T13:%s starts at the first value, %s2 runs to the last" % (sec, sec))
+        if nb[3] is None and na[2] in (None, 0):
+            ctx.oblige(And(nb[2] == -(2 * nis + 1), na[3] == -(2 * nis)), "T13:%s2 = last 2 nx_inter_sep + 1 values, %s = all but the last 2 nx_inter_sep (one shared boundary value)" % (sec, sec))
+        ctx.oblige(And(b["nx"] == nis, a["nx"] + nis == nb[1], na[1] == nb[1]), "T13:cell counts nx_inter_sep and nx_pf - nx_inter_sep")
+    for legs in (("inner", "outer"),):
+        side = "upper" if sec.startswith("upper") else "lower"
+        for io in legs:
+            reg = eq.regions["%s_%s_divertor" % (io, side)]
+            ctx.oblige(TRUE(len(reg.psi_vals) == 3 and reg.psi_vals[0] is pa and reg.psi_vals[1] is pb), "T13:%s_%s_divertor is gridded radially on [%s, %s2, SOL]" % (io, side, sec, sec))
 
 
 def make_pins_run(topo):
